@@ -71,6 +71,12 @@ KindsFour == {Src, FC(1), FR(1), SeqK}
 KindsSix == {Src, FC(None), FC(1), FR(None), FR(1), SeqK}
 ScWide(u) == Sc(SeqsOver(KindsFour, 4), {0, 3}, {1, 2, None}, {"rerun"})
 ScWideThorough(u) == Sc(SeqsOver(KindsSix, 4), 0..3, {1, 2, 3, None}, {"rerun"})
+\* how the branch is given x what it holds: explicit lena.core.Sequence objects around fill/compute and
+\* fill/request elements (plain Sequences, run on every block), bare fill elements that also have run
+KindsSeqObj ==
+  {WithForm(FC(None), f) : f \in {"sq", "sqpp", "sqin", "run"}}
+  \cup {WithForm(FC(1), "run"), WithM(WithForm(FC(None), "sq"), 2), WithM(WithForm(FC(None), "sq"), 0),
+        WithForm(FR(None), "sq"), WithForm(FR(None), "run"), WithForm(FR(1), "run")}
 \* forms of handing a branch to Split, result multiplicities, Sources with tails
 KindsForms ==
   {WithM(Src, 0), WithM(Src, 1), WithForm(Src, "obj"), WithForm(Src, "sub"), WithForm(Src, "fct")}
@@ -82,12 +88,15 @@ KindsForms ==
   \cup {WithM(FR(None), 0), WithM(FR(None), 2), WithM(FR(1), 2), WithM(FR(1), 0)}
   \cup {WithForm(kd, f) : kd \in {MapK, FiltK, SeqK}, f \in {"tup", "obj", "pp"}}
   \cup {WithForm(FiltK, "attr"), WithForm(SeqK, "attr"), WithForm(SeqK, "attr2")}
+  \cup KindsSeqObj
 \* Splits as branches
 KindsNest ==
   {Nest(<<FC(None), FC(None)>>, None), Nest(<<FC(None), WithM(FC(None), 2)>>, 1), Nest(<<FC(None)>>, None),
    Nest(<<FR(None), FR(None)>>, None), Nest(<<FR(None)>>, 1),
    Nest(<<FR(None), SeqK>>, 1), Nest(<<Src, MapK>>, None), Nest(<<Src>>, None), Nest(<<Src, Src>>, 1),
-   Nest(<<>>, None), Nest(<<SeqK, FiltK>>, 2), Nest(<<SeqK>>, 1), Nest(<<MapK, Src, SeqK>>, None)}
+   Nest(<<>>, None), Nest(<<SeqK, FiltK>>, 2), Nest(<<SeqK>>, 1), Nest(<<MapK, Src, SeqK>>, None),
+   Nest(<<WithForm(FC(None), "sq")>>, 1), Nest(<<WithForm(FC(None), "sq"), SeqK>>, None),
+   Nest(<<WithForm(FC(None), "run"), FC(None)>>, None)}
 KindsNew == KindsForms \cup KindsNest
 Singles(S) == {<<>>} \cup {<<a>> : a \in S}
 ScForms(u) == Sc(Singles(KindsNew), 0..3, {1, 2, None}, {"rerun"})
@@ -101,8 +110,22 @@ ScModes(u) == Sc(SeqsOver(KindsModes, 2), {2, 3}, {1, None}, {"abort"})
 ScModesThorough(u) == Sc(SeqsOver(KindsModes \cup {FC(None), FR(None), MapK, FC(0), FR(0), FC(2), FR(2), FiltK}, 2), 0..4, {1, 2, 3, None}, {"abort"})
                       \cup Sc(SeqsOver(KindsModes, 3), {0, 3, 4}, {1, 2, None}, {"abort"})
                       \cup Sc(SeqsOver(KindsStateless \cup {WithM(Src, 0), FiltK}, 3), {0, 2, 4}, {1, 2, None}, {"inter"})
-ScAudit(u) == ScWide(u) \cup ScForms(u) \cup ScModes(u)
-ScAuditThorough(u) == ScWideThorough(u) \cup ScFormsThorough(u) \cup ScModesThorough(u)
+\* branch elements with an == of their own: equal to everything / equal when the held totals coincide
+EqAllOver(S) == {WithEq(kd, "all") : kd \in S}
+EqTotOver(S) == {WithEq(kd, "tot") : kd \in S}
+KindsEqAll == EqAllOver({Src, FC(None), FC(0), FC(1), FR(None), FR(1), SeqK, MapK, WithForm(FC(1), "tup"), WithForm(FR(1), "tup")})
+KindsEqTot == EqTotOver({FC(None), FC(0), FC(1), FC(2), FR(None), FR(0), FR(1)})
+KindsEq == KindsEqAll \cup KindsEqTot
+KindsEqSmall == EqAllOver({Src, FC(None), FC(1), FR(1)}) \cup EqTotOver({FC(None), FC(0)}) \cup {SeqK}
+ScEq(u) == Sc(SeqsOver(KindsEq, 2) \cup Paired(KindsEq, {SeqK, FC(1), FC(None)}), {0, 3}, {1, 2, None}, {"rerun"})
+ScEqThorough(u) == Sc(SeqsOver(KindsEq, 2) \cup Paired(KindsEq, {SeqK, FC(1), FC(None), FR(1), Src}), 0..4, {1, 2, 3, None}, {"rerun"})
+                   \cup Sc(SeqsOver(KindsEqSmall, 3), {0, 2, 3, 4}, {1, 2, 3, None}, {"rerun"})
+\* the two halves on their own (sensitivity guards SpecEqDrop: each kind of == must matter to a scheduler
+\* that looks a finished branch up by ==)
+ScEqAllOnly(u) == Sc(SeqsOver(KindsEqAll, 2), {0, 3}, {1, 2, None}, {"rerun"})
+ScEqTotOnly(u) == Sc(SeqsOver(KindsEqTot, 2), {0, 3}, {1, 2, None}, {"rerun"})
+ScAudit(u) == ScWide(u) \cup ScForms(u) \cup ScModes(u) \cup ScEq(u)
+ScAuditThorough(u) == ScWideThorough(u) \cup ScFormsThorough(u) \cup ScModesThorough(u) \cup ScEqThorough(u)
 
 (***************************************************************************)
 (* Operational machine.                                                    *)
@@ -146,23 +169,49 @@ ReadBlock == /\ phase = "read"
 
 Fixed == UNCHANGED <<scen, pos, buf, empty>> /\ Ctl
 Cls(b) == ClassOf(brs[b])
-BranchSrc == /\ Fixed /\ phase = "branches" /\ ind <= Len(active) /\ Cls(active[ind]) = "src"
-             /\ out' = out \o SrcOutK(active[ind], brs[active[ind]]) /\ active' = RemoveAt(active, ind)
+(* A finished branch leaves the active list.  Which entry is deleted is a   *)
+(* parameter D(i, s) of the three actions that drop a branch (i = index of *)
+(* the finished branch, s = the branch states after its last fill):        *)
+(*   DropPos  the entry at that position - the code (`del active_seqs[ind]`)*)
+(*            and the statement: branches are told apart by position       *)
+(*   DropEq   the first entry whose object compares equal (==) to the      *)
+(*            finished one (`active_seqs.index(seq)`) - WRONG as soon as    *)
+(*            branch elements define ==; SpecEqDrop is the sensitivity      *)
+(*            guard that TLC must refute over the ScEq* families           *)
+DropPos(i, s) == i
+RECURSIVE SumSeq(_)
+SumSeq(q) == IF q = <<>> THEN 0 ELSE Head(q) + SumSeq(Tail(q))
+\* does the object of branch a compare equal to the object of branch b (bare elements)
+EqNow(a, b, s) == \/ a = b
+                  \/ brs[a].eq = "all" \/ brs[b].eq = "all"
+                  \/ brs[a].eq = "tot" /\ brs[b].eq = "tot" /\ SumSeq(s[a].filled) = SumSeq(s[b].filled)
+DropEq(i, s) == CHOOSE j \in 1..Len(active) : /\ EqNow(active[j], active[i], s)
+                                              /\ \A k \in 1..(j - 1) : ~EqNow(active[k], active[i], s)
+BranchSrcG(D(_, _)) ==
+             /\ Fixed /\ phase = "branches" /\ ind <= Len(active) /\ Cls(active[ind]) = "src"
+             /\ out' = out \o SrcOutK(active[ind], brs[active[ind]]) /\ active' = RemoveAt(active, D(ind, st))
              /\ UNCHANGED <<ind, st, phase>>
-BranchFC == /\ Fixed /\ phase = "branches" /\ ind <= Len(active) /\ Cls(active[ind]) = "fc"
-            /\ LET b == active[ind]  r == FillAll(brs[b].stop, st[b], buf) IN
-               /\ st' = [st EXCEPT ![b] = [filled |-> r.filled, nf |-> r.nf]]
+BranchFCG(D(_, _)) ==
+            /\ Fixed /\ phase = "branches" /\ ind <= Len(active) /\ Cls(active[ind]) = "fc"
+            /\ LET b == active[ind]  r == FillAll(brs[b].stop, st[b], buf)
+                   stn == [st EXCEPT ![b] = [filled |-> r.filled, nf |-> r.nf]] IN
+               /\ st' = stn
                /\ IF r.stopped THEN /\ out' = out \o FillResults(b, "c", brs[b], r.filled)
-                                    /\ active' = RemoveAt(active, ind) /\ UNCHANGED ind
+                                    /\ active' = RemoveAt(active, D(ind, stn)) /\ UNCHANGED ind
                   ELSE /\ UNCHANGED <<out, active>> /\ ind' = ind + 1
             /\ UNCHANGED phase
-BranchFR == /\ Fixed /\ phase = "branches" /\ ind <= Len(active) /\ Cls(active[ind]) = "fr"
-            /\ LET b == active[ind]  r == FillAll(brs[b].stop, st[b], buf) IN
-               /\ st' = [st EXCEPT ![b] = [filled |-> <<>>, nf |-> r.nf]]
+BranchFRG(D(_, _)) ==
+            /\ Fixed /\ phase = "branches" /\ ind <= Len(active) /\ Cls(active[ind]) = "fr"
+            /\ LET b == active[ind]  r == FillAll(brs[b].stop, st[b], buf)
+                   stn == [st EXCEPT ![b] = [filled |-> <<>>, nf |-> r.nf]] IN
+               /\ st' = stn
                /\ out' = out \o FillResults(b, "r", brs[b], r.filled)
-               /\ IF r.stopped THEN active' = RemoveAt(active, ind) /\ UNCHANGED ind
+               /\ IF r.stopped THEN active' = RemoveAt(active, D(ind, stn)) /\ UNCHANGED ind
                   ELSE UNCHANGED active /\ ind' = ind + 1
             /\ UNCHANGED phase
+BranchSrc == BranchSrcG(DropPos)
+BranchFC == BranchFCG(DropPos)
+BranchFR == BranchFRG(DropPos)
 BranchSeq == /\ Fixed /\ phase = "branches" /\ ind <= Len(active) /\ Cls(active[ind]) = "run"
              /\ LET b == active[ind] IN out' = out \o RunResults(b, brs[b], buf)
              /\ ind' = ind + 1 /\ UNCHANGED <<active, st, phase>>
@@ -211,6 +260,10 @@ Resume == /\ mode = "inter" /\ runs = 2 /\ phase = "done" /\ susp # <<>>
 Next == Identity \/ ReadBlock \/ BranchSrc \/ BranchFC \/ BranchFR \/ BranchSeq \/ BlockDone \/ Final
         \/ Rerun \/ Abort \/ Suspend \/ Resume
 Spec == Init /\ [][Next]_vars
+\* the wrong scheduler of the sensitivity guard: finished branches are looked up by ==
+NextEqDrop == Identity \/ ReadBlock \/ BranchSrcG(DropEq) \/ BranchFCG(DropEq) \/ BranchFRG(DropEq) \/ BranchSeq
+              \/ BlockDone \/ Final \/ Rerun \/ Abort \/ Suspend \/ Resume
+SpecEqDrop == Init /\ [][NextEqDrop]_vars
 Done == phase = "done"
 \* the scenario is over
 Complete == /\ Done
@@ -249,7 +302,7 @@ OnceOnly == Done => \A b \in 1..Len(brs) : Cls(b) \in {"fc", "src"} => Len(ProjO
 \* every value read is accounted for by a fill/request branch exactly once until it stops
 RECURSIVE Cat(_)
 Cat(ss) == IF ss = <<>> THEN <<>> ELSE Head(ss).p \o Cat(Tail(ss))
-FRAccount == Done => \A b \in 1..Len(brs) : (brs[b].t = "fr" /\ brs[b].m = None) =>
+FRAccount == Done => \A b \in 1..Len(brs) : (brs[b].t = "fr" /\ Cls(b) = "fr" /\ brs[b].m = None) =>
                Cat(Proj(out, b)) = PreSeq(brs[b], IF brs[b].stop = None THEN Iota(N) ELSE Iota(Min(N, brs[b].stop)))
 
 \* every run of the same object starts with all branches active
